@@ -245,6 +245,19 @@ class Ctx(object):
                 out.append((s, self.eng.operand(body, s, TERM_IDX, t['discr']), tuple(sure), tuple(maybe)))
         return out
 
+    def control_deps_transitive(self, body, bb):
+        """control_deps closed under dependence of the controlling switches themselves (a skip nested under another branch)"""
+        out, seen, work = [], set(), [bb]
+        while work:
+            x = work.pop()
+            for d in self.control_deps(body, x):
+                if d[0] in seen:
+                    continue
+                seen.add(d[0])
+                out.append(d)
+                work.append(d[0])
+        return out
+
     def every_iteration(self, body, lp, bb):
         """block bb executes on every non-rejected iteration of loop lp"""
         cfg = self.cfgof(body)
